@@ -129,7 +129,7 @@ Definition decl_of (c : case) : list stm :=
 Definition check_clean (c : case) : list nat :=
   let p := c_prog c in
   let m := match c_decl c with
-           | OOk d => cleanup_from_decl (c_known c) (c_fixed c) (c_dists c) d
+           | OOk d => cleanup_from_decl (c_known c) (c_outputs c) (c_fixed c) (c_dists c) d
            | OEngine => RInternal
            | _ => RValueError end in
   tag3 (res_agree (envs_of c) m (omap (fun x => fst (fst x)) (c_clean c))) 2 1002 ++
@@ -137,7 +137,7 @@ Definition check_clean (c : case) : list nat :=
   | OOk (p', ps, dang) =>
       tag (list_eqb Pos.eqb (cleanup_params (c_fixed c) (c_dists c) (c_params c)) ps) 10 ++
       (* every symbol the cleaned model still defines (except the inlined aliases) keeps its value *)
-      tag (preserved (envs_of c) (diffp (normp (all_sdefs p')) (inlined (decl_of c))) p p') 12
+      tag (preserved (envs_of c) (diffp (normp (all_sdefs p')) (inlined (c_outputs c) (decl_of c))) p p') 12
       ++ tag (forallb (fun y => negb (memp y (all_sdefs p)) || memp y (all_sdefs p')) (c_outputs c)) 13
       (* every variance parameter of the cleaned model's distributions is one of its parameters *)
       ++ tag (match dang with [] => true | _ => false end) 24
@@ -211,8 +211,7 @@ Definition check_obs (c : case) : list nat :=
 Definition guard_tags (c : case) : list nat :=
   let p := c_prog c in
   tag (g_no_stale_capture p) 201 ++
-  tag (g_inline_ok (decl_of c)) 204 ++
-  tag (g_dv_not_alias (c_outputs c) (decl_of c)) 205 ++
+  tag (g_inline_ok (c_outputs c) (decl_of c)) 204 ++
   tag (canon_ok (c_known c) p) 206 ++
   tag (g_no_shadowing (c_known c) p) 208 ++
   tag (match dangling (c_fixed c) (c_dists c) with [] => true | _ => false end) 209 ++
@@ -249,7 +248,7 @@ Record pcase := mkP {
 Definition verdict_pair (c : pcase) : list nat :=
   if p_raised c then
     (* the refactoring refused a corpus model: which guard of the model explains it *)
-    [33] ++ tag (g_no_stale_capture (p_before c)) 201 ++ tag (g_inline_ok (declarative (p_before c))) 204
+    [33] ++ tag (g_no_stale_capture (p_before c)) 201 ++ tag (g_inline_ok (p_outs c) (declarative (p_before c))) 204
   else
   let d := p_ren c in
   let outs := filter (fun x => memp (ren d x) (all_sdefs (p_after c))) (normp (all_sdefs (p_before c))) in
